@@ -19,7 +19,7 @@ def main():
                         baseline_off_cmd='ctest --test-dir /repo/_build -j8 --timeout 900', source_commits=[], add_only=True),
              engines=[dict(name='ir2c+cbmc', path='tools/ir2c.py', serves_properties=sorted(CHECKS),
                            kind_free_text='clang-14 IR of the real sources -> own IR-to-C translator -> CBMC 6.11 bounded symbolic execution (SAT); '
-                                          'sequentialised bounded-context-switch scheduler for concurrency; z3 integer encoding for symbolic-divisor arithmetic')],
+                                          'sequentialised bounded-context-switch scheduler for concurrency')],
              checks=checks,
              notes='Every check regenerates its encoding from /repo on each run. Exit 0 held / 1 VIOLATION / 2 check could not reach a verdict (broken, never "held").',
              not_applicable=[dict(property_id=p, reason=r) for p, r in sorted(NOT_APPLICABLE.items()) if p not in CHECKS])
